@@ -45,6 +45,8 @@ module Nat :
   val odd : nat -> bool
  end
 
+val hd : 'a1 -> 'a1 list -> 'a1
+
 val tl : 'a1 list -> 'a1 list
 
 val nth : nat -> 'a1 list -> 'a1 -> 'a1
@@ -56,6 +58,8 @@ val last : 'a1 list -> 'a1 -> 'a1
 val removelast : 'a1 list -> 'a1 list
 
 val rev : 'a1 list -> 'a1 list
+
+val concat : 'a1 list list -> 'a1 list
 
 val map : ('a1 -> 'a2) -> 'a1 list -> 'a2 list
 
@@ -1294,6 +1298,39 @@ val stdin_mode :
 
 val check_stdin_mode :
   (nat -> bytes -> text option) -> (text -> text) -> enc -> bytes -> bool
+
+type kev =
+| KT
+| KS
+| KL
+| KC
+| Kc
+| KR
+| Kr
+
+type kstate = { k_lines : nat list list; k_cur : nat list; k_pi : nat;
+                k_last : nat }
+
+val k_init : kstate
+
+val upd_nth : nat -> ('a1 -> 'a1) -> 'a1 list -> 'a1 list
+
+val k_top : kstate -> nat
+
+val pop_keep : nat list -> nat list
+
+val k_step : nat list -> kstate -> kev -> kstate
+
+val k_run : nat list -> kev list -> kstate
+
+val k_skips : kev list -> nat -> nat list
+
+val nat_list_eqb : nat list -> nat list -> bool
+
+val consolidate_pass : nat list list -> nat list list -> nat list list
+
+val parse_file_lines :
+  (nat -> bool) -> nat -> nat list list list -> nat list list
 
 module MLStringJoin :
  sig
